@@ -240,8 +240,8 @@ def out_channel(res, tier, scratch, binary):
     the peer does with the closing order of the code, and yields, for the other order, the schedule (queue full, an
     adder waiting with the mutex, Stop) that the harness plays against the real node."""
     quick = tier == "quick"
-    consts = {"Cap": 2 if quick else 3, "Adders": {q("read"), q("handshake")} | (set() if quick else {q("ping")}),
-              "MaxAdds": 3, "Order": q("conn")}
+    consts = {"Cap": 2 if quick else 4, "Adders": {q("read"), q("handshake")} | (set() if quick else {q("ping")}),
+              "MaxAdds": 3 if quick else 5, "Order": q("conn")}
     out, st = run_tlc(scratch, "OutChannel", cfg(consts, spec="Spec", invariants=["TypeOK", "MutexHeld"],
                                                  properties=["StopCompletes", "NobodyLeftBlocked"]),
                       workers=NCPU, timeout=2400, name="outchan")
